@@ -82,6 +82,12 @@ def main():
         rec.notes.append("shard %d aborted after recording %d violation(s): %r\n%s" % (shard, len(rec.violations), e, traceback.format_exc()[-800:]))
     repoimport.check_origin()
     rec.count("shards_in_process_mode_" + mode)
+    try:
+        from vf import gen
+
+        rec.count("generated_screens_with_arrays_in_other_containers", gen.DRESSED[0])
+    except Exception:
+        pass
     rec.count("shards_under_python_O" if not __debug__ else "shards_with_asserts_enabled")
     rec.count("shards_with_debug_logging" if os.environ.get("VF_LOG_DEBUG") == "1" else "shards_with_default_logging")
     with open(out, "w") as f:
